@@ -19,7 +19,7 @@ FN = ['parsePkgLength', 'parseNumConstant', 'parseString', 'parseNameString', 'n
 class C12(flow.Spec):
     prop = 'C12'
     props_files = ['theories/Props/C12.v', 'theories/Props/C12_examples.v', 'theories/Props/C12_reader_trans.v']
-    model_targets = ['theories/Aml/RunC12.vo', 'theories/Aml/ParserProofsTop.vo', 'theories/Aml/ParserTotalTop.vo', 'theories/Aml/ParserTotalCalls.vo', 'theories/Aml/ParserTotalReloc.vo', 'theories/Aml/ParserTotalMerge.vo', 'theories/Aml/ParserTotalResolve.vo', 'theories/Aml/ParserTotalDeferW.vo', 'theories/Aml/ParserTotalDeferV.vo', 'theories/Aml/ParserTotalChain.vo']
+    model_targets = ['theories/Aml/RunC12.vo', 'theories/Aml/ParserProofsTop.vo', 'theories/Aml/ParserTotalTop.vo', 'theories/Aml/ParserTotalCalls.vo', 'theories/Aml/ParserTotalReloc.vo', 'theories/Aml/ParserTotalMerge.vo', 'theories/Aml/ParserTotalResolve.vo', 'theories/Aml/ParserTotalDeferW.vo', 'theories/Aml/ParserTotalDeferV.vo', 'theories/Aml/ParserTotalChain.vo', 'theories/Aml/ParserTotalPass2.vo']
     pkg = 'device/acpi/aml'
     harness = [os.path.join(H, 'zz_verif_c12_test.go'), os.path.join(H, 'zz_verif_amlcommon_test.go')]
     test = 'TestVerifC12$'
@@ -110,6 +110,11 @@ class C12(flow.Spec):
                'ParserTotalMerge / ParserTotalResolve, instantiated in ParserTotalShape.v).  C12_parse_total_partial_nopanic_tail_pend: the inductive count '
                'dcnt of the walk theorem is replaced by PEND - the count exists (forest induction by depth) and is bounded by the pool size '
                '(ParserTotalChain.v).  NOT derived: that passes 1-2 establish the directive shape, TM2 and PEND; fuel is NOT analysed',
+               'C12_parse_total_partial_nopanic_rest2: ALL passes after the FIRST one chained exactly as in parseAML_body (parse_rest2 = '
+               'connectNamedObjArgs(0), counter reset, parse_rest; lemma parseAML_body_rest2) never panic from any state with R, valid indexes, reader / '
+               'whole-parser invariants, empty scope stack, []byte typing, the memory bound and SH (root facts, Scope-directive shape, TM2, PEND): '
+               'connectNamedObjArgs preserves SH (abstract invariant threaded through the pass, ParserTotalConn2.v / ParserTotalPass2.v).  The ONLY step of '
+               'ParseAML not covered by a chained no-panic theorem is "the first pass establishes SH"',
                'the unproved parts of C12_full_parse_total (no Panic / OutOfFuel and R for the later passes, outcome class of load) are covered '
                'by the correspondence of the extracted model (explicit Panic / OutOfFuel outcomes, all passes modelled) with the real parser '
                'and by the harness monitors (outcome class, watchdog, independent link checker, PrettyPrint)',
